@@ -420,7 +420,7 @@ package controller
 //@   ensures subOf(untaintedNodes, allNodes, len(allNodes)) && subOf(taintedNodes, allNodes, len(allNodes)) && subOf(forceTaintedNodes, allNodes, len(allNodes)) && subOf(cordonedNodes, allNodes, len(allNodes))
 //@   ensures fresh(base(untaintedNodes)) && fresh(base(taintedNodes)) && fresh(base(forceTaintedNodes)) && fresh(base(cordonedNodes))
 //@   ensures len(untaintedNodes) + len(taintedNodes) + len(forceTaintedNodes) + len(cordonedNodes) == len(allNodes)
-//@   ensures [C01,C03,C06,C09,C10,C13] !dry(c, nodeGroup) ==> (forall j :: 0 <= j && j < len(untaintedNodes) ==> clsU(untaintedNodes[j])) && (forall j :: 0 <= j && j < len(taintedNodes) ==> clsT(taintedNodes[j])) && (forall j :: 0 <= j && j < len(forceTaintedNodes) ==> clsF(forceTaintedNodes[j])) && (forall j :: 0 <= j && j < len(cordonedNodes) ==> unsched(cordonedNodes[j]))
+//@   ensures [C01,C03,C06,C09,C10,C12,C13] !dry(c, nodeGroup) ==> (forall j :: 0 <= j && j < len(untaintedNodes) ==> clsU(untaintedNodes[j])) && (forall j :: 0 <= j && j < len(taintedNodes) ==> clsT(taintedNodes[j])) && (forall j :: 0 <= j && j < len(forceTaintedNodes) ==> clsF(forceTaintedNodes[j])) && (forall j :: 0 <= j && j < len(cordonedNodes) ==> unsched(cordonedNodes[j]))
 //@   ensures [C03,C06,C09,C13] !dry(c, nodeGroup) ==> (forall i :: 0 <= i && i < len(allNodes) && clsU(allNodes[i]) ==> (exists j :: 0 <= j && j < len(untaintedNodes) && untaintedNodes[j] == allNodes[i]))
 //@ loop #0
 //@   modifies elems(untaintedNodes), elems(taintedNodes), elems(forceTaintedNodes), elems(cordonedNodes)
@@ -551,6 +551,9 @@ package controller
 //@   assert @ScaleUp#2 [C06] maxPercent == max(cpuPercent, memPercent) && scaleOptions.nodesDelta == nodesDelta && nodesDelta >= 1 && (maxPercent <= real(nodeGroup.Opts.ScaleUpThresholdPercent) ==> nodesDelta == 1)
 //@   assert @ScaleUp#2 [C05] maxPercent > real(nodeGroup.Opts.ScaleUpThresholdPercent) && cpuPercent != MAXF && memPercent != MAXF ==> scaleUpD(len(untaintedNodes), cpuPercent, memPercent, nodeGroup.Opts.ScaleUpThresholdPercent) <= nodesDelta && nodesDelta <= max(1, scaleUpD(len(untaintedNodes), cpuPercent, memPercent, nodeGroup.Opts.ScaleUpThresholdPercent))
 //@   assert @TryRemoveTaintedNodes#1 [C06] maxPercent == max(cpuPercent, memPercent) && nodesDelta == 0 && (maxPercent < real(nodeGroup.Opts.TaintLowerCapacityThresholdPercent) ==> nodeGroup.Opts.FastNodeRemovalRate == 0) && (maxPercent >= real(nodeGroup.Opts.TaintLowerCapacityThresholdPercent) && maxPercent < real(nodeGroup.Opts.TaintUpperCapacityThresholdPercent) ==> nodeGroup.Opts.SlowNodeRemovalRate == 0)
+// C12: every node a scan touches was listed by this group's own node lister in this scan, and every cloud
+// request goes to the group's own cloud group.
+//@   ensures [C12] forall k :: old(Jlen) <= k && k < Jlen ==> ((Jkind[k] == K_UPDATE || Jkind[k] == K_DELETE || Jkind[k] == C_DELNODE) && LNby[Jname[k]] != nil) || (Jkind[k] == C_INCREASE && Jname[k] == gid(nodeGroup))
 // C05 (from zero): the node size remembered for scaling up from zero is the one observed in this scan
 //@   ensures [C05] err == nil && LNok && len(k8s.listedNodes()) > 0 ==> nodeGroup.cpuCapacity == k8s.rlCPU(k8s.listedNodes()[0].Status.Allocatable) && nodeGroup.memCapacity == k8s.rlMem(k8s.listedNodes()[0].Status.Allocatable)
 //@   ensures [C01] Jlen > old(Jlen) ==> (forall i, j :: 0 <= i && i < len(k8s.listedNodes()) && 0 <= j && j < len(k8s.listedPods()) && k8s.nodeEmptyIn(k8s.listedNodes()[i], nodeGroup.NodeInfoMap) && k8s.listedPods()[j].Spec.NodeName == k8s.listedNodes()[i].Name ==> k8s.isDS(k8s.listedPods()[j]))
